@@ -157,6 +157,16 @@ Check C17_body : forall dbg hp ho hd s rem u h B, usv_list s ->
     /\ string_percent_decode encodedBody = fst (body_ref B).
 Print Assumptions C17_body.
 
+(* failure: when there is no comma before the fragment (DataUrl::process returns NoComma) the Fetch
+   processor returns failure on the parsed URL - opaque path, any query *)
+Theorem C17_no_comma : forall dbg hp ho hd s rem u, usv_list s ->
+  parse_scheme CUrlParser (input_new_trim_c0 s) = Some (s_data, rem) -> inp_split_prefix_char 47 rem = None ->
+  parse_url dbg hp ho hd None None s = POk u ->
+  find_comma_before_fragment (utf8_encode rem) = Ok None ->
+  Fetch.process (url_without_fragment u) = None.
+Proof. exact no_comma_is_fetch_failure. Qed.
+Print Assumptions C17_no_comma.
+
 (* inside Known_C17 the statement fails: one witness per finding (toy host functions; none of the
    witnesses has an authority) *)
 Theorem C17_1_refuted : exists s u, usv_list s
